@@ -277,6 +277,15 @@ func runC20(r *Runner) string {
 			}
 		}
 	}
+	// runs of inputs of ONE length through ONE helper (a caller hashing key after key from one buffer: in the
+	// reused-buffer re-evaluation these land in the same memory, one after the other)
+	for _, op := range helpers {
+		for _, n := range []int{1, 20, 32, 33, 64, 65} {
+			for k := 0; k < 8; k++ {
+				r.Do(op, []string{hx(r.bytesN(n))}, op+"/run of one length", true, fmt.Sprintf("%d bytes", n))
+			}
+		}
+	}
 	// long inputs: 10^6 bytes in the compact form, around 10^6, and one random 10^5-byte string per helper
 	for _, op := range helpers {
 		for _, spec := range []string{"rep:00:1000000", "rep:61:1000000", "rep:ff:999999", "rep:80:1000001", "rep:61:65536"} {
